@@ -147,4 +147,10 @@ QUOTE_DOCS = [
     ('nested_quotes', '"Outer \'inner quoted\' outer" and \'single "double inside" single\' and "a" "b" \'c\' \'d\'.\n'),
     ('punct', 'He said ("paren") and —"dash"— and "end". "End"! "Q"? x="attr" y=\'attr\' 5\'10" tall and rock\'n\'roll.\n'),
     ('footnote', 'Text[^1] "quoted".\n\n[^1]: The "note" isn\'t long.\n'),
+    # sentence ends next to quotes: the curly spelling must end a sentence exactly where the straight one does (semantic mode)
+    ('sentence_ends', 'She finally called the whole project "done". Then everybody went home happy and slept. He asked whether it was \'really over\'! '
+                      'Nobody in the room could say "maybe"? The answer came later that week, "it is finished." Everyone was glad to hear '
+                      'that it \'was so.\' And then the report said (in a "footnote"). Last sentence of the paragraph here.\n'),
+    ('sentence_ends_list', '- The first item says it is "done". And then a second sentence follows here.\n- Another item asks \'why not\'? Because the answer is long enough.\n\n'
+                           '> Quoted text ends with "this". Then another sentence inside the quote.\n'),
 ]
